@@ -1,3 +1,4 @@
 import Generated.Kernels
 import Generated.NTTables
+import Generated.RWLock
 import Generated.UtilCanon
